@@ -352,6 +352,13 @@ func (s *Service) subscribeToBeaconCommittees(ctx context.Context,
 	}
 	s.subscriptionInfosMutex.Lock()
 	s.subscriptionInfos[epoch] = subscriptionInfo
+	// Remove old subscriptions here as well as on head events,
+	// so that the map does not grow while no head events arrive.
+	for subscriptionEpoch := range s.subscriptionInfos {
+		if subscriptionEpoch+2 <= s.chainTimeService.CurrentEpoch() {
+			delete(s.subscriptionInfos, subscriptionEpoch)
+		}
+	}
 	s.subscriptionInfosMutex.Unlock()
 }
 
